@@ -40,6 +40,10 @@ CLI = [
     ("udp", ["udp"], 2, True, "icmp", True, "udp"),
     ("icmp", ["icmp"], 2, False, "icmp", True, "icmp"),
     ("arp", ["arp"], 3, False, "arp", True, None),
+    # > 200 port ranges: startPortScanEngine runs one engine + filter per chunk of 200; replies to the FIRST chunk that arrive
+    # after its probes are out but within its exit delay
+    ("tcp syn [201 port ranges]", ["tcp", "syn"], 1, True, "syn", False, "tcpsyn"),
+    ("tcp fin [201 port ranges]", ["tcp", "fin"], 0, True, "tcp", True, "tcpfin"),
 ]
 CLI_VPN = ["tcp", "tcp --flags syn", "tcp fin", "udp", "icmp"]
 
@@ -47,7 +51,7 @@ CLI_VPN = ["tcp", "tcp --flags syn", "tcp fin", "udp", "icmp"]
 def cli_cases():
     out = []
     for name, argv, flt, ports, cls, af, scan in CLI:
-        out.append({"name": name, "argv": argv, "filter": flt, "ports": ports, "tun": False})
+        out.append({"name": name, "argv": argv, "filter": flt, "ports": ports, "tun": False, "chunks": "[201 port ranges]" in name})
     for name, argv, flt, ports, cls, af, scan in CLI:
         if name in CLI_VPN:
             out.append({"name": name, "argv": argv, "filter": flt, "ports": ports, "tun": True})
@@ -296,8 +300,12 @@ def judge_e2e(ctx, rows, af, seen):
         if c.get("err") in ("sentinel-not-reported", "second-sentinel-not-reported"):
             fo = {"frame": c["sentinel"], "class": "to-scanning-host", "vm": False, "record": False, "n": 0}
             report(ctx, c, fo, ("missed:e2e:" + (c.get("cls") or CLASS.get(c["cmd"], "?")),
-                                "%s scan of %s ports %s (source %s) on a real AF_PACKET socket never reports a plain reply-shaped frame "
-                                "addressed to the scanning host" % (c["cmd"], c["subnet"] or "any", c["ports"][:3], c["srcip"])), seen)
+                                "%s scan of %s ports %s%s (source %s) on a real AF_PACKET socket %s a plain reply-shaped frame "
+                                "addressed to the scanning host%s" % (
+                                    c["cmd"], c["subnet"] or "any", c["ports"][:3], " ..." if len(c["ports"]) > 3 else "", c["srcip"],
+                                    "never reports" if c["err"].startswith("sentinel") else "stops reporting: after the first replies were "
+                                    "reported, the scan (still running, within its exit delay) yields no record for",
+                                    "" if c["err"].startswith("sentinel") else " (injected repeatedly for 20 s)")), seen)
             continue
         if c.get("err"):
             ctx.broken.append(("correspondence: e2e run of %s failed: %s" % (c["cmd"], c["err"]), ""))
@@ -317,6 +325,33 @@ def judge_e2e(ctx, rows, af, seen):
                 tag = "cli" if c.get("cli") else "e2e"
                 pre = "[real command line `%s`] " % c["text"] if c.get("cli") else "[end-to-end, kernel filter] "
                 report(ctx, c, fo, (why[0].replace(":", ":%s:" % tag, 1) + (":vpn" if c.get("cli") and c.get("vpn") else ""), pre + why[1]), seen)
+
+
+def run_burst(ctx, n, seen):
+    """More replies than the result channel buffers (2 x 1000) while the consumer is stalled: every record exactly once."""
+    ok, _ = ctx.harness_run("c03", ["-out", "burst.jsonl", "-burst", n, "-wiring", os.path.join(ctx.work, "wiring.json")], timeout=600)
+    if not ok:
+        return
+    for b in ctx.read_jsonl(os.path.join(ctx.work, "burst.jsonl")):
+        ctx.count("burst/%s/%s" % (b["cmd"], "complete" if not b["missing"] and not b["dups"] else "lossy"),
+                  ("burst", b["cmd"], b["n"]), nontrivial=True)
+        ctx.cov["evaluations"] += b["n"] - 1
+        what = None
+        if b.get("err"):
+            ctx.broken.append(("correspondence: burst stage of %s: %s" % (b["cmd"], b["err"]), ""))
+        elif b["missing"]:
+            what = ("missed:burst:" + b["cmd"],
+                    "%d reply-shaped frames are handed to the %s scan method while the consumer of its results is stalled: %d of them "
+                    "yield no record (first: the frame from %s), %d records come out" % (b["n"], b["cmd"], b["missing"], b["first_missing_key"], b["records"]))
+        elif b["dups"] or b["foreign"]:
+            what = ("multi:burst:" + b["cmd"], "%d reply-shaped frames in a burst: %d duplicate and %d foreign records" % (b["n"], b["dups"], b["foreign"]))
+        if what and what[0] not in seen:
+            seen[what[0]] = 1
+            path = ctx.write_replay(re.sub(r"\W+", "-", what[0]), {
+                "property": "C03", "what": what[1],
+                "input": {"burst": True, "w": b["w"], "cmd": b["cmd"], "n": b["n"], "frames": [b.get("first_missing", "")]},
+                "observed": b, "replay_cmd": "bin/check C03 --replay <this file>"})
+            ctx.findings.append({"key": what[0], "what": what[1], "replay": path})
 
 
 def report(ctx, case, fo, why, seen):
@@ -406,6 +441,7 @@ def run(ctx):
             if why:
                 report(ctx, c, fo, why, seen)
     if ws and os.path.exists(os.path.join(verif.HBIN, "c03")):
+        run_burst(ctx, 3000 if quick else 20000, seen)
         judge_e2e(ctx, run_e2e(ctx, ["-seed", ctx.seed, "-n", 4 if quick else 96, "-per", 8], "e2e"), af, seen)
     if True:
         # every packet-scan command line through its real RunE, Ethernet and VPN (tun) mode; this stage needs nothing
@@ -469,6 +505,13 @@ def replay(ctx, path):
         return 1
     ws = prepare(ctx)
     i = r["input"]
+    if i.get("burst"):
+        seen = {}
+        run_burst(ctx, i["n"], seen)
+        for fd in ctx.findings:
+            print("burst replay: " + fd["what"])
+        print("replay: " + ("the property FAILS on this input" if ctx.findings else "the property holds on this input"))
+        return 1 if ctx.findings else 0
     w = [k for k, x in enumerate(ws) if x["cmd"] == i["cmd"]]
     if i.get("cli"):
         spec = [c for c in cli_cases() if c["name"] == i["cli"]["name"] and c["tun"] == i["cli"]["tun"]]
